@@ -494,11 +494,16 @@ pub fn gen_program(seed: u64, run: u64, takers: &[usize], makers: &[usize]) -> P
 /// leaving it to sampling; the seeded chains then add compositions and natural garbage.
 pub fn grid_cases(takers: &[usize]) -> Vec<(usize, usize, usize, usize, usize)> {
     let mut v = Vec::new();
+    const ALL: usize = usize::MAX;
     for &oi in takers {
-        for (pos, t) in OPS[oi].args.iter().enumerate() {
-            if !mentions_padded(t) {
-                continue;
-            }
+        let npad = OPS[oi].args.iter().filter(|t| mentions_padded(t)).count();
+        let mut positions: Vec<usize> = (0..OPS[oi].args.len()).filter(|p| mentions_padded(&OPS[oi].args[*p])).collect();
+        if npad >= 2 {
+            // every padded argument poisoned with the same class at once (dependences that need
+            // a particular combination of two operands' hidden lanes)
+            positions.push(ALL);
+        }
+        for pos in positions {
             for pc in 0..POISON_CLASSES.len() + 3 {
                 for route in 0..ROUTES.len() {
                     for oc in 0..3 {
@@ -536,12 +541,16 @@ pub fn gen_grid_program(seed: u64, case: (usize, usize, usize, usize, usize), id
         k if k == POISON_CLASSES.len() + 1 => PBits::NegLane(r.below(3)),
         _ => PBits::Const(r.next_u32()),
     };
-    let ncols = match &op.args[pos] {
-        t if is_padded_ty(t) => padded_cols(t),
-        _ => 4,
-    };
-    let bits: Vec<PBits> = (0..ncols).map(|_| spec(g.rng)).collect();
-    let faults = vec![Fault { before_step: 0, reg: args[pos], bits, route: ROUTES[route] }];
+    let targets: Vec<usize> = if pos == usize::MAX { (0..op.args.len()).filter(|p| mentions_padded(&op.args[*p])).collect() } else { vec![pos] };
+    let mut faults = Vec::new();
+    for tp in targets {
+        let ncols = match &op.args[tp] {
+            t if is_padded_ty(t) => padded_cols(t),
+            _ => 4,
+        };
+        let bits: Vec<PBits> = (0..ncols).map(|_| spec(g.rng)).collect();
+        faults.push(Fault { before_step: 0, reg: args[tp], bits, route: ROUTES[route] });
+    }
     Program { init: g.init, steps: vec![Step { op: oi, args, outs }], faults }
 }
 
